@@ -180,7 +180,7 @@ def run(tier, seed, res):
     # DFAEquivalentToPredicate on short strings
     for kind, alpha, inv, ml in (('v4', {48, 49, 50, 53, 54, 46}, 'V4Equiv', 7 if tier == 'quick' else 8), ('v6', {49, 97, 58}, 'V6Equiv', 9 if tier == 'quick' else 11)):
         r = run_tlc('MC_IPRef', 'SPECIFICATION Spec\nINVARIANT %s\nCHECK_DEADLOCK FALSE\n' % inv,
-                    runcfg_module({'IPAlpha': alpha, 'MaxLen': ml, 'Pars': set(), 'DateFmtLists': set(), 'DateCands': set(), 'DateExts': set(), 'IPAddrs': set(), 'IPCtxs': set()},
+                    runcfg_module({'IPAlpha': alpha, 'MaxLen': ml, 'Pars': set(), 'DateFmtLists': set(), 'DateCands': set(), 'DateExts': set(), 'IPAddrs': set(), 'IPCtxs': set(), 'DecBasePars': set(), 'DecMids': set(), 'DecCtxs': set()},
                                   extends=['Integers']), workers=8)
         res.states += r['distinct']
         res.transitions += r['generated']
